@@ -306,6 +306,7 @@ class Pipeline:
     def _token_kinds(self):
         """Abstract value of each token type, by evaluating the rule's action abstractly."""
         kinds = {}
+        self.token_kind_notes = {}
         for r in self.main_lexer.rules:
             if r.kind == "trivia":
                 continue
@@ -319,7 +320,10 @@ class Pipeline:
             try:
                 res = it.call(A.FuncVal(self.main_lexer.mod, r.func, lexobj), [tok], {})
             except A.Unsupported as e:
-                kinds[r.name] = ("unsupported", str(e))
+                # the action does something the abstract domain cannot follow: keep the value opaque
+                # (a string) so taint rules still see it; C05.TOKEN-CONV reports the action itself
+                self.token_kind_notes[r.name] = str(e)
+                kinds[r.name] = ("value", "str") if (r.action and r.action.returns_token) else ("dropped", None)
                 continue
             except A.RaiseSig as e:
                 kinds[r.name] = ("raises", e.exc_name)
@@ -385,6 +389,23 @@ PLACE_INT = 7000000
 
 
 def placeholder(sym: A.Sym, render: str) -> str:
+    if "[" in render:
+        # a renderer followed by index/slice operations, e.g. repr[:-1]
+        base, ops = render.split("[", 1)
+        txt = placeholder(sym, base)
+        for op in ("[" + ops).replace("][", "]|[").split("|"):
+            body = op[1:-1]
+            if ":" in body:
+                a, b = (body.split(":") + [""])[:2]
+                txt = txt[(int(a) if a else None):(int(b) if b else None)]
+            else:
+                txt = txt[int(body)]
+        return txt
+    if render == "json":
+        import json
+        return json.dumps(f"S{sym.uid}x") if sym.kind in ("str", "rawtoken") else placeholder(sym, "str")
+    if render not in ("str", "repr", "ascii"):
+        return placeholder(sym, "repr")
     if sym.kind == "ident":
         return repr(sym.name) if render in ("repr", "ascii") else sym.name
     if sym.kind in ("str", "rawtoken"):
